@@ -37,7 +37,9 @@ ASSUMPTIONS = ['an invalid entry must raise (ValueError or TypeError for plain w
                'leave the active scope as before the attempt',
                'captured scope lists are re-entered, never mutated by the program',
                'threads: sampled line-granularity schedules; absence of a race is not established']
-FLOORS = {'single:nontrivial': (0.15, 'kind:single'), 'entry:invalid': (0.3, 'kind:single'),
+# the exhaustive depth<=2 sweep (never non-trivial: the rule asks for depth >= 3) is part of the
+# kind:single denominator
+FLOORS = {'single:nontrivial': (0.1, 'kind:single'), 'entry:invalid': (0.3, 'kind:single'),
           'entry:raising-object': (0.08, 'kind:single'), 'exit:raise': (0.3, 'kind:single'),
           'threads:nontrivial': (0.3, 'kind:threads')}
 TECHNIQUE = ('model-based property testing of scope-entry programs (generated trees + exhaustive '
@@ -133,6 +135,14 @@ def run_program(nodes, observe, captured, labels, yield_now=lambda: None, depth=
       observe(call=False)
     elif kind == 'call':
       observe(call=True)
+    elif kind == 'scribble':
+      # what current_scope() returns is the caller's to edit: the active scope is not affected
+      lst = gin.current_scope()
+      lst.append('zz')
+      lst.reverse()
+      del lst[1:]
+      labels.add('edit-returned-scope-list')
+      observe(call=True, what='after editing the list returned by current_scope()')
     elif kind == 'scoped-call':
       # a scoped configurable / a scoped reference shared with the other threads: it must run
       # under exactly its own scope, whatever is active here or elsewhere, and change nothing
@@ -156,6 +166,14 @@ def run_program(nodes, observe, captured, labels, yield_now=lambda: None, depth=
           entry, valid = captured[spec[1] % len(captured)], True
         else:
           entry, valid = [], True
+      elif spec[0] == 'derived':
+        # a child (or sibling) scope derived by editing the list current_scope() returned, then
+        # entered as an explicit list
+        entry, valid = gin.current_scope(), True
+        if spec[2] and entry:
+          entry[-1] = spec[1]
+        else:
+          entry.append(spec[1])
       elif spec[0] == 'none':
         entry, valid = None, True
       elif spec[0] == 'empty':
@@ -262,7 +280,7 @@ def check_single(case):
     raise Violation('scope-stack-corrupted', f'IndexError: {e}')
   require(gin.current_scope() == [], 'scope-not-restored-at-end', str(gin.current_scope()))
   nt = ('depth>=3' in labels and bool(labels & {'exit:raise', 'exit:raise-base', 'exit:generator-close', 'exit:invalid-entry'}) and
-        bool(labels & {'entry:list', 'entry:captured', 'entry:none', 'entry:empty'}))
+        bool(labels & {'entry:list', 'entry:captured', 'entry:derived', 'entry:none', 'entry:empty'}))
   if nt:
     labels.add('single:nontrivial')
   return ok(labels, nt)
@@ -323,17 +341,19 @@ _spec = st.one_of(
     st.sampled_from(['a/b', 'x/y', 'a/x', 'b/a/x']).map(lambda n: ['name', n]),
     st.lists(st.sampled_from(['a', 'b', 'x', 'y']), max_size=3).map(lambda l: ['list', l]),
     st.integers(0, 5).map(lambda k: ['captured', k]),
+    st.tuples(st.sampled_from(['a', 'b', 'x']), st.booleans()).map(lambda t: ['derived', t[0], t[1]]),
     st.just(['none']), st.just(['empty']),
     st.integers(0, N_BAD - 1).map(lambda i: ['bad', i]),
     st.integers(0, N_BAD - 1).map(lambda i: ['bad', i]))
 _valid_spec = st.one_of(
     st.sampled_from(['a', 'b', 'x', 'a/b', 'x/y']).map(lambda n: ['name', n]),
     st.lists(st.sampled_from(['a', 'b', 'x', 'y']), max_size=3).map(lambda l: ['list', l]),
+    st.tuples(st.sampled_from(['a', 'b', 'x']), st.booleans()).map(lambda t: ['derived', t[0], t[1]]),
     st.just(['none']))
 
 
 def _nodes(depth, spec=_spec):
-  leaf = st.sampled_from([['check'], ['call'], ['scoped-call', 0], ['scoped-call', 1],
+  leaf = st.sampled_from([['check'], ['call'], ['scribble'], ['scoped-call', 0], ['scoped-call', 1],
                           ['scoped-call', 2], ['scoped-call', 4]])
   if depth <= 0:
     return st.lists(leaf, max_size=2)
@@ -365,6 +385,7 @@ def strategy():
 def sweep(tier):
   kmax = 3 if tier == 'thorough' else 2
   specs = [['name', 'a'], ['name', 'a/b'], ['list', ['x', 'y']], ['list', []], ['captured', 0],
+           ['derived', 'b', False],
            ['none'], ['empty'], ['bad', 6], ['bad', 14], ['bad', 15], ['bad', 16], ['bad', 20]]
   exits = ('normal', 'raise', 'raise-base', 'genclose') if tier == 'thorough' else (
       'normal', 'raise', 'genclose')
